@@ -10,9 +10,9 @@ import inspect
 def _is_sizeish(n):
     if isinstance(n, ast.Call) and isinstance(n.func, ast.Name) and n.func.id == "len":
         return True
-    if isinstance(n, ast.Attribute) and any(k in n.attr.lower() for k in ("count", "size", "len", "num")):
+    if isinstance(n, ast.Attribute) and any(k in n.attr.lower() for k in ("count", "size", "len", "num", "depth", "level")):
         return True
-    if isinstance(n, ast.Name) and any(k in n.id.lower() for k in ("count", "size", "len", "num")):
+    if isinstance(n, ast.Name) and any(k in n.id.lower() for k in ("count", "size", "len", "num", "depth", "level")):
         return True
     return False
 
